@@ -111,7 +111,7 @@ def run(pid, tier, programs=None, phases=()):
     known = [k for k in C.load_known().get("findings", []) if k.get("property") == pid]
     with C.Lock():
         lean_ok, names = C.lean_phase(res, pid, gen_fn=regen_memorder if pid == "C03" else None, thorough_modules=["Cuckoo.Model.Proto"],
-                                      extra_props={"C01": ["C01Conc"], "C04": ["C04Live"], "C06": ["C06Conc"]}.get(pid, []))
+                                      extra_props={"C01": ["C01Conc", "C01Red"], "C03": ["C01Red"], "C04": ["C04Live"], "C06": ["C06Conc", "C01Red"]}.get(pid, []))
     if pid == "C03":
         tsan_runs(res, tier, known)
     for ph in phases:
@@ -125,7 +125,7 @@ def run(pid, tier, programs=None, phases=()):
                          "config": c["config"], "harness_input": c["input"], "tail": c["tail"]})
     if out["rejects"]:
         res.add_broken("K3(i): %d recorded synchronisation trace(s) are rejected by the Lean protocol model Cuckoo.Proto.accept "
-                       "or by rule L of Model/ProtoLive.lean (the code no longer follows the protocol the theorems are about)" % len(out["rejects"]),
+                       "by rule L of Model/ProtoLive.lean or by rule T (two-phase holds) of Model/Fine.lean (the code no longer follows the protocol the theorems are about)" % len(out["rejects"]),
                        json.dumps(out["rejects"][:3]))
     mine = [f for f in out["failures"] if pid in classify(f["why"])]
     seen = set()
